@@ -200,13 +200,20 @@ def run(ctx):
                      "drain": 4.0, "max_points": 8000, "free_switch_cost": 1},
             "budget": 3000 if ctx.quick else 40000,
         })
-    ctx.pmap(H.shard, specs)
+    if not ctx.quick:
+        specs += H.line_variants(
+            specs, lambda p: p["blocked_thread"] and (
+                "late" in (p["asyncio"], p["trio"]) or "child" in p["asyncio"] + p["trio"]
+                or (p["asyncio"], p["trio"]) == ("sleeper+sync", "shield0.5")))
+    ctx.pmap(H.shard, specs, cost=lambda s: s["opts"].get("line_points", False))
     H.finish(
         ctx, specs,
         rule="trigger (failure per flavour, SIGINT at every explored point, shutdown(), "
              "MetaRunner.stop()) x asyncio population x trio population x blocked thread x every "
              "schedule within the deviation bound; non-trivial = more than one schedule executed",
-        bounds={"deviation_bound": bound, "granularity": "synchronisation operations",
+        bounds={"deviation_bound": bound, "granularity": "synchronisation operations" + (
+            "" if ctx.quick else "; source lines of the runner package at bound 1 for the "
+            "late / child / shielded populations"),
                 "sigint": "one delivery per execution; arrival point is a cost-%d choice"
                           % (1 if ctx.quick else 0)},
         assumptions=["asyncio cleanup is synchronous only; payloads that swallow cancellation "
